@@ -1,16 +1,269 @@
 /-
   C14 — field resolution never returns a value that contradicts a supplied field.
-  (stage 1: model + correspondence; the property theorems follow)
+  Property statements only.  Model: Model/ParsedCore.lean (record, setters) and
+  Model/ParsedResolve.lean (resolution).  Specification: Spec/ParsedSpec.lean — `DateAgrees`,
+  `TimeAgrees`, `timestampIs` (what "agrees with every supplied field" means, read off the calendar
+  specification of C01), `DateSufficient` / `TimeSufficient` (the documented combinations),
+  `GroupCoherent` / `GroupDeterminate` (year groups).  Helper lemmas: Proofs/ParsedL.lean,
+  Proofs/ParsedDateL.lean, Proofs/ParsedDtL.lean.
+
+  `InType p` says that every field holds a value of its Rust type (`i32`/`u32`/`i64`); it is the
+  only restriction on the record — all 2^21 subsets and all values are covered by each statement.
+  `VD Y o` = "the o-th day of year Y exists and Y is in the supported range"; `dateOfYo Y o` is its
+  packed value (C01).
 -/
-import Chrono.Model.ParsedResolve
+import Chrono.Proofs.ParsedDtL
 
 namespace Chrono.Props.C14
-open Chrono Chrono.M
+open Chrono Chrono.M Chrono.Spec Chrono.Proofs Chrono.Extracted
 
-/-- the setter helper: a second value for a field is accepted exactly when it equals the first -/
-theorem set_if_consistent_iff {α} [DecidableEq α] (old v : α) :
-    (∃ r, Parsed.setIf (some old) v = .ok r) ↔ old = v := by
-  unfold Parsed.setIf
-  by_cases h : old = v <;> simp [h]
+/-! ### setting a field twice -/
+
+/-- every integer-valued setter: after a successful `set_x a`, a second `set_x b` is accepted
+exactly when `b = a` (an out-of-range `b` can never equal the accepted `a`) -/
+theorem set_twice (p p1 : Parsed) (a b : Int) :
+    (p.set_year a = .ok p1 → ((∃ p2, p1.set_year b = .ok p2) ↔ a = b)) ∧
+    (p.set_year_div_100 a = .ok p1 → ((∃ p2, p1.set_year_div_100 b = .ok p2) ↔ a = b)) ∧
+    (p.set_year_mod_100 a = .ok p1 → ((∃ p2, p1.set_year_mod_100 b = .ok p2) ↔ a = b)) ∧
+    (p.set_isoyear a = .ok p1 → ((∃ p2, p1.set_isoyear b = .ok p2) ↔ a = b)) ∧
+    (p.set_isoyear_div_100 a = .ok p1 → ((∃ p2, p1.set_isoyear_div_100 b = .ok p2) ↔ a = b)) ∧
+    (p.set_isoyear_mod_100 a = .ok p1 → ((∃ p2, p1.set_isoyear_mod_100 b = .ok p2) ↔ a = b)) ∧
+    (p.set_quarter a = .ok p1 → ((∃ p2, p1.set_quarter b = .ok p2) ↔ a = b)) ∧
+    (p.set_month a = .ok p1 → ((∃ p2, p1.set_month b = .ok p2) ↔ a = b)) ∧
+    (p.set_week_from_sun a = .ok p1 → ((∃ p2, p1.set_week_from_sun b = .ok p2) ↔ a = b)) ∧
+    (p.set_week_from_mon a = .ok p1 → ((∃ p2, p1.set_week_from_mon b = .ok p2) ↔ a = b)) ∧
+    (p.set_isoweek a = .ok p1 → ((∃ p2, p1.set_isoweek b = .ok p2) ↔ a = b)) ∧
+    (p.set_ordinal a = .ok p1 → ((∃ p2, p1.set_ordinal b = .ok p2) ↔ a = b)) ∧
+    (p.set_day a = .ok p1 → ((∃ p2, p1.set_day b = .ok p2) ↔ a = b)) ∧
+    (p.set_minute a = .ok p1 → ((∃ p2, p1.set_minute b = .ok p2) ↔ a = b)) ∧
+    (p.set_second a = .ok p1 → ((∃ p2, p1.set_second b = .ok p2) ↔ a = b)) ∧
+    (p.set_nanosecond a = .ok p1 → ((∃ p2, p1.set_nanosecond b = .ok p2) ↔ a = b)) ∧
+    (p.set_offset a = .ok p1 → ((∃ p2, p1.set_offset b = .ok p2) ↔ a = b)) ∧
+    (p.set_timestamp a = .ok p1 → ((∃ p2, p1.set_timestamp b = .ok p2) ↔ a = b)) ∧
+    (p.set_hour12 a = .ok p1 → ((∃ p2, p1.set_hour12 b = .ok p2) ↔ a = b)) ∧
+    (p.set_hour a = .ok p1 → ((∃ p2, p1.set_hour b = .ok p2) ↔ a = b)) :=
+  ⟨twice_year p p1 a b, twice_year_div_100 p p1 a b, twice_year_mod_100 p p1 a b, twice_isoyear p p1 a b, twice_isoyear_div_100 p p1 a b, twice_isoyear_mod_100 p p1 a b, twice_quarter p p1 a b, twice_month p p1 a b, twice_week_from_sun p p1 a b, twice_week_from_mon p p1 a b, twice_isoweek p p1 a b, twice_ordinal p p1 a b, twice_day p p1 a b, twice_minute p p1 a b, twice_second p p1 a b, twice_nanosecond p p1 a b, twice_offset p p1 a b, twice_timestamp p p1 a b, twice_hour12 p p1 a b, twice_hour p p1 a b⟩
+
+/-- the two setters with non-integer arguments -/
+theorem set_twice_weekday_ampm (p p1 : Parsed) :
+    (∀ a b : Weekday, p.set_weekday a = .ok p1 → ((∃ p2, p1.set_weekday b = .ok p2) ↔ a = b)) ∧
+    (∀ a b : Bool, p.set_ampm a = .ok p1 → ((∃ p2, p1.set_ampm b = .ok p2) ↔ a = b)) :=
+  ⟨fun a b => twice_weekday p p1 a b, fun a b => twice_ampm p p1 a b⟩
+
+/-- non-vacuity: a first set succeeds, the same value again succeeds, another value is refused with
+IMPOSSIBLE, an out-of-range value with OUT_OF_RANGE -/
+example : (∃ p1, Parsed.new.set_month 2 = .ok p1 ∧ p1.set_month 2 = .ok p1 ∧
+    p1.set_month 3 = .error .impossible ∧ p1.set_month 13 = .error .outOfRange) :=
+  ⟨{ month := some 2 }, rfl, rfl, rfl, rfl⟩
+
+/-! ### times -/
+
+/-- a resolved time is a value the public constructors can build and agrees with every supplied
+time field (12-hour clock halves, minute, second incl. 60 = leap second, nanosecond); an omitted
+second / nanosecond is zero in the result; resolution succeeded only on a sufficient set of
+in-range fields -/
+theorem time_sound (p : Parsed) (t : Time) (h : Parsed.to_naive_time p = .ok t) :
+    TStrict t ∧ TimeAgrees p t ∧ TimeSufficient p ∧ TimeInRange p := time_sound' p t h
+
+/-- completeness: fields that agree with a real time of day and contain the documented sufficient
+combination resolve to exactly that time -/
+theorem time_complete (p : Parsed) (t : Time) (ht : TStrict t) (ha : TimeAgrees p t)
+    (hs : TimeSufficient p) : Parsed.to_naive_time p = .ok t := time_complete' p t ht ha hs
+
+/-- error kinds of the time resolver: only NOT_ENOUGH and OUT_OF_RANGE occur; OUT_OF_RANGE only
+with an out-of-range field; for in-range fields NOT_ENOUGH is reported exactly for insufficient sets.
+(The resolver cannot panic: its model is `PRes`-valued, no machine arithmetic can overflow.) -/
+theorem time_error_kinds (p : Parsed) :
+    (∀ e, Parsed.to_naive_time p = .error e → e = .notEnough ∨ e = .outOfRange) ∧
+    (Parsed.to_naive_time p = .error .outOfRange → ¬ TimeInRange p) ∧
+    (Parsed.to_naive_time p = .error .notEnough → ¬ TimeSufficient p) ∧
+    (TimeInRange p → (Parsed.to_naive_time p = .error .notEnough ↔ ¬ TimeSufficient p)) := by
+  refine ⟨fun e h => ?_, fun h => ?_, fun h => ?_, fun hr => ⟨fun h => ?_, fun hns => ?_⟩⟩
+  · rcases time_err' p e h with ⟨h1, _⟩ | ⟨h1, _⟩ <;> simp [h1]
+  · rcases time_err' p _ h with ⟨h1, _⟩ | ⟨_, h2⟩
+    · cases h1
+    · exact h2
+  · rcases time_err' p _ h with ⟨_, h2⟩ | ⟨h1, _⟩
+    · exact h2
+    · cases h1
+  · rcases time_err' p _ h with ⟨_, h2⟩ | ⟨h1, _⟩
+    · exact h2
+    · cases h1
+  · cases hres : Parsed.to_naive_time p with
+    | ok t => exact absurd (time_sound' p t hres).2.2.1 hns
+    | error e =>
+      rcases time_err' p e hres with ⟨h1, _⟩ | ⟨_, h2⟩
+      · rw [h1]
+      · exact absurd hr h2
+
+/-- non-vacuity: 23:59:60.5 (a leap second) from the 12-hour fields, an insufficient set, an
+out-of-range minute -/
+example :
+    Parsed.to_naive_time {
+      hour_div_12 := some 1, hour_mod_12 := some 11, minute := some 59,
+      second := some 60, nanosecond := some 500000000 } = .ok ⟨86399, 1500000000⟩ ∧
+    Parsed.to_naive_time { hour_div_12 := some 1, minute := some 59 } = .error .notEnough ∧
+    Parsed.to_naive_time { hour_div_12 := some 1, hour_mod_12 := some 11, minute := some 60 }
+      = .error .outOfRange := by decide +kernel
+
+/-! ### dates -/
+
+/-- the date resolver never panics: for every record of in-type field values it returns a date or
+an error kind -/
+theorem date_no_panic (p : Parsed) (hp : InType p) : ∃ r, Parsed.to_naive_date p = .ok r := by
+  obtain ⟨r, hr, _⟩ := date_main p hp
+  exact ⟨r, hr⟩
+
+/-- soundness, every record in which a calendar combination (year with month+day, ordinal, or a
+Sunday/Monday week number with weekday) is present: a successful result is an existing day of the
+supported range and agrees with EVERY supplied date field — full year, century, two-digit year,
+quarter, month, both week numbers, weekday, ordinal, day, and the three ISO-week fields -/
+theorem date_sound (p : Parsed) (hp : InType p) (hc : UsesCalendar p) (d : Date)
+    (h : Parsed.to_naive_date p = .ok (.ok d)) :
+    ∃ Y o, VD Y o ∧ d = dateOfYo Y o ∧ DateAgrees p Y o := by
+  obtain ⟨r, hr, hok, _⟩ := date_main p hp
+  rw [hr] at h
+  cases h
+  obtain ⟨Y, o, hvd, hd, hag⟩ := hok d rfl
+  exact ⟨Y, o, hvd, hd, hag (Or.inr hc)⟩
+
+/-- soundness for ALL records, including those resolved through the ISO combination (ISO year,
+ISO week, weekday).  Missing for the unconditional statement: `IsoCtorSpec`, the round trip
+"`from_isoywd_opt y w wd = d` ⇒ `d.iso_week = (y, w)` and `d.weekday = wd`" of the ISO-week
+constructor, which belongs to C01's ISO-week theorems (Proofs/IsoL.lean, another builder); it is an
+explicit hypothesis here.  Everything else (the resolver's own logic: year groups, verifier
+closures, quarter check) is proved. -/
+theorem date_sound_partial (hiso : IsoCtorSpec) (p : Parsed) (hp : InType p) (d : Date)
+    (h : Parsed.to_naive_date p = .ok (.ok d)) :
+    ∃ Y o, VD Y o ∧ d = dateOfYo Y o ∧ DateAgrees p Y o := by
+  obtain ⟨r, hr, hok, _⟩ := date_main p hp
+  rw [hr] at h
+  cases h
+  obtain ⟨Y, o, hvd, hd, hag⟩ := hok d rfl
+  exact ⟨Y, o, hvd, hd, hag (Or.inl hiso)⟩
+
+/-- the result of the ISO combination is, unconditionally, an existing day of the supported range
+(so `date_sound_partial` lacks only the agreement of the ISO fields themselves) -/
+theorem date_result_valid (p : Parsed) (hp : InType p) (d : Date)
+    (h : Parsed.to_naive_date p = .ok (.ok d)) : ∃ Y o, VD Y o ∧ d = dateOfYo Y o := by
+  obtain ⟨r, hr, hok, _⟩ := date_main p hp
+  rw [hr] at h
+  cases h
+  obtain ⟨Y, o, hvd, hd, _⟩ := hok d rfl
+  exact ⟨Y, o, hvd, hd⟩
+
+/-- error kinds of the date resolver: only NOT_ENOUGH, IMPOSSIBLE, OUT_OF_RANGE occur; NOT_ENOUGH
+only for sets that contain none of the documented combinations (or a century without two-digit
+year); and when the two year groups are coherent (no contradicting or out-of-range member),
+NOT_ENOUGH is reported exactly for the insufficient sets -/
+theorem date_error_kinds (p : Parsed) (hp : InType p) :
+    (∀ e, Parsed.to_naive_date p = .ok (.error e) → e = .notEnough ∨ e = .impossible ∨ e = .outOfRange) ∧
+    (Parsed.to_naive_date p = .ok (.error .notEnough) → ¬ DateSufficient p) ∧
+    (GroupCoherent p.year p.year_div_100 p.year_mod_100 →
+      GroupCoherent p.isoyear p.isoyear_div_100 p.isoyear_mod_100 →
+      (Parsed.to_naive_date p = .ok (.error .notEnough) ↔ ¬ DateSufficient p)) := by
+  obtain ⟨r, hr, _, hk, hne⟩ := date_main p hp
+  refine ⟨fun e h => ?_, fun h => ?_, fun h1 h2 => date_not_enough_iff p hp h1 h2⟩
+  · rw [hr] at h; cases h; exact hk e rfl
+  · rw [hr] at h; cases h; exact hne rfl
+
+/-- the year group alone: a resolved year agrees with full year, century and two-digit year; a
+lone two-digit year is read with the 1970–2069 pivot; a lone century is NOT_ENOUGH -/
+theorem year_group (y q r : Option Int) :
+    (∀ g, Parsed.resolve_year y q r = .ok g →
+      (g = none ∧ y = none ∧ q = none ∧ r = none) ∨
+      (∃ Y, g = some Y ∧ optIs y Y ∧ centIs q r Y ∧ GroupHasYear y r)) ∧
+    (∀ rv, 0 ≤ rv → rv ≤ 99 →
+      Parsed.resolve_year none none (some rv) = .ok (some (if rv < 70 then 2000 + rv else 1900 + rv))) ∧
+    (∀ qv, Parsed.resolve_year none (some qv) none = .error .notEnough) := by
+  refine ⟨fun g h => resolve_year_ok y q r g h, fun rv h0 h1 => ?_, fun qv => rfl⟩
+  unfold Parsed.resolve_year
+  simp only []
+  rw [if_pos ⟨h0, h1⟩]
+  congr 2
+  split <;> omega
+
+/-- non-vacuity: a 9-field record (2024-02-29 with consistent week fields and quarter) resolves;
+changing the quarter makes it IMPOSSIBLE; a non-existent day is OUT_OF_RANGE; a lone century is
+NOT_ENOUGH; week 53 + Sunday of a year whose last week is shorter is IMPOSSIBLE -/
+example :
+    Parsed.to_naive_date {
+      year_div_100 := some 20, year_mod_100 := some 24, quarter := some 1,
+      month := some 2, day := some 29, weekday := some .thu, ordinal := some 60, isoweek := some 9,
+      week_from_mon := some 9 } = .ok (.ok (dateOfYo 2024 60)) ∧
+    Parsed.to_naive_date { year := some 2024, quarter := some 2, month := some 2, day := some 29 }
+      = .ok (.error .impossible) ∧
+    Parsed.to_naive_date { year := some 2023, month := some 2, day := some 29 } = .ok (.error .outOfRange) ∧
+    Parsed.to_naive_date { year_div_100 := some 20, month := some 2, day := some 28 }
+      = .ok (.error .notEnough) ∧
+    Parsed.to_naive_date { year := some 2023, week_from_sun := some 53, weekday := some .mon }
+      = .ok (.error .impossible) := by
+  decide +kernel
+
+/-! ### date-times -/
+
+/-- the field path of `to_naive_datetime_with_offset` (date and time both resolve): no panic, the
+result is exactly (date, time), and it is returned iff the supplied timestamp — if any — is the
+timestamp of that local reading minus the offset, with the documented allowance of one second when
+the result is a leap second; otherwise IMPOSSIBLE.  With `date_sound`/`time_sound` this is the
+soundness of the date-time resolver on this path: date fields, time fields and timestamp all agree. -/
+theorem datetime_sound_fields (p : Parsed) (hp : InType p) (off : Int)
+    (hoff : -2147483648 ≤ off ∧ off ≤ 2147483647) (d : Date) (t : Time)
+    (hd : Parsed.to_naive_date p = .ok (.ok d)) (ht : Parsed.to_naive_time p = .ok t) :
+    (∃ r, Parsed.to_naive_datetime_with_offset p off = .ok r ∧
+      (∀ dt, r = .ok dt → dt = ⟨d, t⟩ ∧ timestampIs p.timestamp dt off) ∧
+      (∀ e, r = .error e → e = .impossible ∧ ¬ timestampIs p.timestamp ⟨d, t⟩ off) ∧
+      (timestampIs p.timestamp ⟨d, t⟩ off → r = .ok ⟨d, t⟩)) := by
+  obtain ⟨Y, o, hvd, rfl⟩ := date_result_valid p hp d hd
+  have htv := (time_sound' p t ht).1.1
+  rw [dt_fields_path p off hoff Y o t hvd htv hd ht]
+  refine ⟨_, rfl, ?_⟩
+  unfold timestampIs
+  cases hts : p.timestamp with
+  | none =>
+    dsimp only
+    exact ⟨(fun dt h => by cases h; exact ⟨rfl, fun g hg => by cases hg⟩), (fun e h => by cases h),
+      fun _ => rfl⟩
+  | some g =>
+    dsimp only
+    split
+    · rename_i hc
+      refine ⟨(fun dt h => by cases h), fun e h => ?_, fun h => ?_⟩
+      · cases h
+        refine ⟨rfl, fun hh => ?_⟩
+        rcases hh g rfl with h1 | h1
+        · exact hc.1 h1
+        · exact hc.2 h1
+      · rcases h g rfl with h1 | h1
+        · exact absurd h1 hc.1
+        · exact absurd h1 hc.2
+    · rename_i hc
+      refine ⟨fun dt h => ?_, (fun e h => by cases h), fun _ => rfl⟩
+      cases h
+      refine ⟨rfl, fun g' hg' => ?_⟩
+      cases hg'
+      by_cases h1 : g = timestampIs.instSecsLocal ⟨dateOfYo Y o, t⟩ - off
+      · exact Or.inl h1
+      · right
+        have : ¬ ¬ (t.frac ≥ 1000000000 ∧ g = timestampIs.instSecsLocal ⟨dateOfYo Y o, t⟩ - off + 1) :=
+          fun hn => hc ⟨h1, hn⟩
+        exact Decidable.not_not.mp this
+
+/-- non-vacuity: the leap second 2016-12-31T23:59:60 with either of the two admissible timestamps,
+and a contradicting one -/
+example :
+    Parsed.to_naive_datetime_with_offset {
+      year := some 2016, month := some 12, day := some 31,
+      hour_div_12 := some 1, hour_mod_12 := some 11, minute := some 59, second := some 60,
+      timestamp := some 1483228799 } 0 = .ok (.ok ⟨dateOfYo 2016 366, ⟨86399, 1000000000⟩⟩) ∧
+    Parsed.to_naive_datetime_with_offset {
+      year := some 2016, month := some 12, day := some 31,
+      hour_div_12 := some 1, hour_mod_12 := some 11, minute := some 59, second := some 60,
+      timestamp := some 1483228800 } 0 = .ok (.ok ⟨dateOfYo 2016 366, ⟨86399, 1000000000⟩⟩) ∧
+    Parsed.to_naive_datetime_with_offset {
+      year := some 2016, month := some 12, day := some 31,
+      hour_div_12 := some 1, hour_mod_12 := some 11, minute := some 59, second := some 60,
+      timestamp := some 1483228801 } 0 = .ok (.error .impossible) := by
+  decide +kernel
 
 end Chrono.Props.C14
